@@ -107,6 +107,35 @@ def gen_case(rng, mode, length):
     return " ".join(head) + "|" + ";".join(ops)
 
 
+def gen_ties(rng):
+    n = rng.choice([5, 6, 7, 8, 9, 10, 12])
+    shape = rng.choice(["star", "chain", "comb"])
+    vals = [rng.choice([5, 5, 5, 7, 7, 9]) for _ in range(n)]
+    head = []
+    for x in range(1, n):
+        head.append("g%d=%d,%s d%d=%s" % (x, vals[x], rng.choice(["q2", "q0", "n1", "N", str(vals[x])]), x, rng.choice(["q2", "N", "n3"])))
+        if rng.random() < 0.25:
+            head.append("p%d=%s" % (x, rng.choice(["i%d" % rng.randrange(n), "r%d_%d" % (rng.randrange(n), rng.randrange(n)),
+                                                   "x%d" % rng.randrange(1, n), "a%d_%d" % (rng.randrange(n), rng.randrange(1, n)), "c%d" % rng.randrange(n)])))
+    ops = ["N%d" % x for x in range(n)]
+    for x in range(1, n):
+        p = 0 if shape == "star" else (x - 1 if shape == "chain" else (x - 1 if x % 2 else max(0, x - 2)))
+        ops.append("a%d_%d" % (p, x))
+    t = 0
+    for _ in range(rng.choice([6, 10, 16])):
+        r = rng.random()
+        if r < 0.6:
+            t += rng.choice([0, 1, 2, 2, 5]); ops.append("C0@%d" % t)
+        elif r < 0.8:
+            ops.append(("i%d" if rng.random() < 0.6 else "j%d") % rng.randrange(n))
+        elif r < 0.9:
+            ops.append("r%d_%d" % (rng.randrange(n), rng.randrange(1, n)))
+        else:
+            ops.append("a%d_%d" % (rng.randrange(n), rng.randrange(1, n)))
+    ops += ["C0@%d" % (t + 3), "C0@%d" % (t + 3)]
+    return " ".join(head) + "|" + ";".join(ops)
+
+
 def directed():
     out = []
     # one parent, k children due at the same / increasing times; each position's callback unlinks the next sibling
@@ -164,9 +193,10 @@ class CHECK(vlib.Check):
                 "are scriptable oracles that may operate on any node from inside the callback. "
                 "Not modelled: cycle-start time / time-slice suggestions, ReflectServer's own event loop (it only calls the two manager entry points per root).")
     premises = ["memory safety and object lifetime of the C++ (observed by ASan/UBSan in the harness only)",
-                "times are uint64 (the model clamps an oracle's answer to MUSCLE_TIME_NEVER); pulse instants are below MUSCLE_TIME_NEVER",
-                "callers do not build parent cycles, do not operate on destroyed nodes, and call the manager entry points on parentless nodes only",
-                "an object destroyed from inside a callback while one of its own sweeps may be running is freed after the sweep (its destructor's unlinking happens at once)"]
+                "theorems reach_inv / recalc_min / recalc_asks / step_total: the GetPulseTime() oracle is an arbitrary function of (node, call index, now, previous time) that performs NO operations (F16: with operations the statement is refuted, C20_reentrant_recalc_refuted); the Pulse() oracle is arbitrary and may perform any list of invalidate/attach/detach/clear/destroy operations on any nodes (reach_inv, cop_preserves, pulse_never_early_once) except in pulse_exact and step_total where it performs none",
+                "times are uint64: the model clamps an oracle's answer to MUSCLE_TIME_NEVER (= 2^64-1, proved from the translated constant); pulse instants are below MUSCLE_TIME_NEVER in pulse_exact",
+                "callers do not build parent cycles, do not operate on destroyed nodes, and call the manager entry points on parentless nodes only (the model's operations are no-ops otherwise; the harness applies the same guards)",
+                "an object destroyed from inside a callback while one of its own sweeps may be running is freed after the sweep (its destructor's unlinking happens at once); other objects are freed at once"]
     rule = ("histories over up to 7 scripted PulseNodes: create/attach/detach/clear/destroy/invalidate and manager cycles "
             "(GetPulseTimeAux then PulseAux on a root) under a simulated clock; after EVERY top-level operation the callback log "
             "(node, call index, callback time, previous/scheduled time, reported minimum) and every node's _parent/_aggregatePulseTime/"
@@ -180,6 +210,9 @@ class CHECK(vlib.Check):
         for mode, cnt in (("pure", 700), ("pulseops", 900), ("getops", 400), ("reentrant", 300)):
             for _ in range(cnt * scale):
                 out.append((mode, gen_case(rng, mode, rng.choice([4, 8, 12, 20, 30, 45]))))
+        # wide and deep shapes with equal times: sorted insertion among ties, long needs-recalc paths
+        for _ in range(150 * scale):
+            out.append(("ties", gen_ties(rng)))
         out += [("directed", c) for c in directed()]
         return out
 
